@@ -1469,7 +1469,9 @@ fn render_nodes(prog: &Prog, nodes: &[Node], o: &RenderOpts, out: &mut String) {
         }
         match n {
             Node::I(i) => {
-                if !(o.strip_decorators && is_decorator_txt(&i.txt)) {
+                // advice injectors are decorators for the assembler but change what later reads of
+                // the advice stack return: they stay
+                if !(o.strip_decorators && is_decorator_txt(&i.txt) && !i.txt.starts_with("adv.")) {
                     out.push_str(&i.txt);
                     out.push(' ');
                 }
